@@ -67,6 +67,35 @@ def gen_busy_stall(r, tier):
     return ops
 
 
+def gen_stall_writefault(r, tier):
+    """a never-stop fan is found stalled and the write that carries the raised request is refused by the device (a one-off
+    EIO / read-only moment); the fan then turns again and the curve stays at 0 (direct loop): every later request is at least
+    the raised minimum, i.e. the requests never fall (seed C02l: the raise was only recorded after a successful write)"""
+    ops = []
+    ident = streams.int_map_tok({i: i for i in range(256)})
+    for _ in range(40 if tier == "quick" else 800):
+        lo = r.range(1, 200)
+        hi = r.range(lo + 10, 255)
+        ops.append("#case stall-writefault")
+        ops.append(f"w.new kind=hwmon ns=1 win={r.pick([1, 2, 10])} minp={lo} maxp={hi} startp={lo} avg=x0000000000000000 map={ident} "
+                   f"loop=direct m=- resp=id pwm={r.pick([lo, r.range(0, 255)])} rpm=0 origmode=2 origpwm=0 mode=1")
+        now = r.range(1, 10**12)
+        n = r.range(4, 12)
+        bad = r.range(1, 3)
+        for k in range(n):
+            now += 200_000_000
+            if k == bad:
+                ops.append(f"w.dev pwmwrite={r.pick(['refused', 'refused', 'ignored'])}")
+            ops.append(f"w.cycle curve=0 now={now}")
+            if k == bad:
+                ops.append("w.dev pwmwrite=applied" + (" rpm=900" if r.chance(0.6) else ""))
+                if r.chance(0.5):
+                    ops.append(f"w.dev pwm={r.range(0, 255)}")   # something else moves the register meanwhile
+            if r.chance(0.4):
+                ops.append("w.poll")
+    return ops
+
+
 class C02(Prop):
     id = "C02"
     lean_modules = ["Fan2go.Props.C02"]
@@ -80,7 +109,8 @@ class C02(Prop):
                Stream("ctrl", lambda r, tier: ctrl.gen_ctrl(r, tier, n_quick=300, n_thorough=8000), parallel=8),
                Stream("ctrl-long", ctrl.gen_long_quiet, parallel=8),
                Stream("ctrl-attach", gen_attach, parallel=8),
-               Stream("busy-stall", gen_busy_stall, parallel=8, exact=False, contract=lambda op, a, b: True)]
+               Stream("busy-stall", gen_busy_stall, parallel=8, exact=False, contract=lambda op, a, b: True),
+               Stream("stall-writefault", gen_stall_writefault, parallel=8)]
 
     def oracle_attach(self, ops, go):
         """the floor is computed from the configuration and the measured data alone: the configured minPwm, else the
@@ -115,7 +145,7 @@ class C02(Prop):
 
     def oracle(self, name, ops, go):
         out = []
-        if name == "busy-stall":
+        if name in ("busy-stall", "stall-writefault"):
             # constant curve 0, direct loop: request = minimum + raises so far, which never falls
             for cops, cgo in cases(ops, go):
                 prev = None
@@ -123,6 +153,10 @@ class C02(Prop):
                     if not op.startswith("w.cycle"):
                         continue
                     st = kv(g)
+                    if name == "stall-writefault" and st.get("res") != "ok" and st.get("last", "-") != "-":
+                        # the refused write: the request was made all the same
+                        prev = max(prev or 0, int(st["last"]))
+                        continue
                     if st.get("res") != "ok" or st.get("last", "-") == "-":
                         break
                     t = int(st["last"])
